@@ -35,8 +35,18 @@ VARIANTS = {
     "int": ({"type": "integer"}, [5]),
     "arr": ({"type": "array", "items": {"type": "string"}}, [["p", "q"], []]),
     "map": ({"type": "object", "additionalProperties": {"type": "integer"}}, [{"k": 1}, {}]),
+    # variants COMPOSED with allOf whose requirements sit in requirement-only members (next to sibling properties / before the member that brings the property)
+    "VTiger": ({"allOf": [{"$ref": "#/components/schemas/AnimalBase"}, {"required": ["stripes"]}], "properties": {"stripes": {"type": "integer"}}}, [{"name": "t", "stripes": 3}]),
+    "VBear": ({"allOf": [{"$ref": "#/components/schemas/AnimalBase"}, {"required": ["claws"]}, {"$ref": "#/components/schemas/ClawTraits"}]}, [{"name": "b", "claws": 4}]),
+    # formatted strings that are told apart only because the stricter format rejects the other's values
+    "date": ({"type": "string", "format": "date"}, ["2024-03-01"]),
+    "datetime": ({"type": "string", "format": "date-time"}, ["2024-03-01T10:30:00+00:00"]),
+    "tsstr": ({"type": "string"}, ["2024-03-01T10:30:00+00:00", "s"]),
 }
-OBJECTS = ["VA", "VAB", "VB", "VOpt", "VAC"]
+OBJECTS = ["VA", "VAB", "VB", "VOpt", "VAC", "VTiger", "VBear"]
+BASE_MENU = ["VA", "VAB", "VB", "VOpt", "VAC", "str", "int", "arr", "map"]   # the full permutation space runs over these
+EXTRA_SCHEMAS = {"AnimalBase": {"type": "object", "properties": {"name": {"type": "string"}}},
+                 "ClawTraits": {"type": "object", "properties": {"claws": {"type": "integer"}}}}
 
 
 def R(n):
@@ -55,15 +65,16 @@ def twin(v, i=0):
 
 def unions(tier):
     out = []
-    names = list(VARIANTS)
+    names = list(BASE_MENU)
     for k in (2, 3) if tier == "quick" else (2, 3, 4):
         for sel in itertools.permutations(names, k):
             out.append({"variants": list(sel), "disc": "none", "nullable": False, "kw": "oneOf"})
-    for sel in itertools.permutations(OBJECTS, 2):
+    DOBJ = ["VA", "VAB", "VB", "VOpt", "VAC"]   # discriminated twins are built from the plain object variants
+    for sel in itertools.permutations(DOBJ, 2):
         out.append({"variants": list(sel), "disc": "none", "nullable": True, "kw": "oneOf"})
         out.append({"variants": list(sel), "disc": "none", "nullable": False, "kw": "anyOf"})
     for k in (2, 3):
-        for sel in itertools.permutations(OBJECTS, k):
+        for sel in itertools.permutations(DOBJ, k):
             for disc in ("mapping", "mapping2", "implicit"):
                 out.append({"variants": list(sel), "disc": disc, "nullable": False, "kw": "oneOf"})
             if k == 2:
@@ -75,6 +86,13 @@ def unions(tier):
         for sel in (["VA", "VB"], ["VAB", "VOpt"], ["VAC", "VB"]):
             for disc in ("mapping", "implicit"):
                 out.append({"variants": list(sel), "disc": disc, "nullable": False, "kw": "oneOf", "prop": prop})
+    # (appended last: the packs of the unions above stay as they are, and with them the recorded witness keys)
+    for group in (["VTiger", "VBear", "VB"], ["date", "datetime", "tsstr"], ["date", "datetime", "int"]):
+        for k in (2, 3):
+            for sel in itertools.permutations(group, k):
+                out.append({"variants": list(sel), "disc": "none", "nullable": False, "kw": "oneOf"})
+                if k == 2:
+                    out.append({"variants": list(sel), "disc": "none", "nullable": False, "kw": "anyOf"})
     return out
 
 
@@ -92,7 +110,7 @@ def describe(u):
 
 
 def build_doc(us):
-    schemas = {}
+    schemas = json.loads(json.dumps(EXTRA_SCHEMAS))
     for n, (sch, _) in VARIANTS.items():
         if n in OBJECTS:
             schemas[n] = sch
